@@ -18,7 +18,7 @@ ASSUMPTIONS = [
     "problems: lattice stream multisets of <=2 streams x zone labels and stream names with printable characters incl. space, '/', '#', ',', ';', quotes (only names the readers rewrite by design - digits-only, dots - are excluded) x {no utilities, an isothermal pair, a 'Both' level}",
     "channels: dict, validated model, value-with-unit dict, JSON file, CSV directory, CSV pair, XLSX workbook with the template sheets; the service function and the PinchProblem wrapper; "
     "files are written by the harness into a private temporary directory; results are compared modulo the project (root zone) name, which the wrapper derives from the file name",
-    "wrapper histories: every sequence of <=4 (quick) / <=5 (thorough) of {load a, load b, target, export}; the service is counted through a harness-side wrapper to observe caching",
+    "wrapper histories: every sequence of <=4 (quick) / <=5 (thorough) of {load a, load b, target, export, rewrite the file behind a}; the service is counted through a harness-side wrapper to observe caching",
     "sheet names: every sequence of <=4 names from a tricky 12-name alphabet through _unique_sheet_name, and exported workbooks for every pair of tricky zone names read back with openpyxl; "
     "uniqueness is checked the way Excel compares names (case-insensitively) and exactly",
 ]
@@ -170,7 +170,7 @@ def _pp_load(pp, source):
 
 
 # ------------------------------------------------------------------ wrapper histories (cache)
-W_EVENTS = ["load_a", "load_b", "target", "export"]
+W_EVENTS = ["load_a", "load_b", "target", "export", "rewrite_a"]
 
 
 def wrap_explore(tier, inst, shard, nshards):
@@ -205,7 +205,7 @@ def wrap_explore(tier, inst, shard, nshards):
         os.makedirs(os.path.join(tmp, "out"))
         idx = 0
         for n in range(1, depth + 1):
-            for hist in itertools.product(range(4), repeat=n):
+            for hist in itertools.product(range(len(W_EVENTS)), repeat=n):
                 idx += 1
                 if idx % nshards != shard:
                     continue
@@ -213,13 +213,19 @@ def wrap_explore(tier, inst, shard, nshards):
                 pp = ppmod.PinchProblem()
                 loaded = None
                 need_fresh = True       # a service call is due at the next target()/export()
+                content_a = 0           # which problem file a currently holds (the file is rewritten by 'rewrite_a')
+                json.dump(pa, open(files[0], "w"))
                 for step, e in enumerate(hist):
                     ev = W_EVENTS[e]
                     del calls[:]
                     try:
+                        if ev == "rewrite_a":
+                            content_a = 1 - content_a
+                            json.dump(pb if content_a else pa, open(files[0], "w"))
+                            continue
                         if ev in ("load_a", "load_b"):
-                            loaded = 0 if ev == "load_a" else 1
-                            pp.load(files[loaded])
+                            pp.load(files[0 if ev == "load_a" else 1])
+                            loaded = content_a if ev == "load_a" else 1      # the problem the loaded file held AT LOAD TIME
                             need_fresh = True
                         elif ev == "target":
                             if loaded is None:
@@ -382,7 +388,7 @@ SUBCHECKS = {
         describe="all sequences of PinchProblem load/target/export: result of the currently loaded problem, and the service is called exactly when no cached result exists",
         rule="state = (loaded problem, cache valid); non-trivial = every history",
         explore=wrap_explore, replay=wrap_replay,
-        bound=lambda t: "all sequences of <=4 of 4 events (340)" if t == "quick" else "all sequences of <=5 of 4 events (1364)",
+        bound=lambda t: "all sequences of <=4 of 5 events (780)" if t == "quick" else "all sequences of <=5 of 5 events (3905)",
     ),
     "sheet_names": SubCheck(
         name="sheet_names",
